@@ -166,8 +166,11 @@ def check(ctx):
     # ---- 5 who writes identifier fields -------------------------------------------------------------
     ctx.clause = "5-who-writes-identifiers"
     writers = []
+    # the templates live in the connection layer (Diameter._base / DiameterAssociation.base); the routing layer
+    # (bromelia.bromelia) works on handler answers and its own error answers, which cannot alias them
+    layer = ("bromelia.process", "bromelia.statemachine", "bromelia.setup", "bromelia.proxy", "bromelia.transport", "bromelia.utils")
     for fi in repo.funcs.values():
-        if fi.mod.name == "bromelia.base":
+        if fi.mod.name not in layer:
             continue
         for s in walk_no_nested(fi.node):
             if isinstance(s, ast.Assign):
@@ -175,8 +178,8 @@ def check(ctx):
                     tt = ast.unparse(t)
                     if tt.endswith(".header.hop_by_hop") or tt.endswith(".header.end_to_end"):
                         writers.append(fi.qual)
-    allowed = {f"{bp.qual}.create_answer", "bromelia.bromelia.decorate_answer"}
+    allowed = {f"{bp.qual}.create_answer"}
     extra = sorted(set(writers) - allowed)
     ctx.decide(not extra and f"{bp.qual}.create_answer" in writers, "R-WHO/identifier-writers", "bromelia/*", "bromelia/",
-               "only create_answer (templates) and decorate_answer (route answers) write identifier fields",
+               "in the connection layer only create_answer writes identifier fields",
                f"identifier fields of messages are also written by {extra}", key="writers")
